@@ -18,13 +18,16 @@ inductive Coll where
   | sql (db : SqlDb)
   | sbt (z : Zip)
   | lca (db : LcaDb)
+  | bag (l : List Sig)                                  -- the output directory of `sig split`
+  | mf (rows : List Row) (broken : Bool)                -- a `sig collect` manifest over the slots
   | failed
 
 structure St where
   sigs : Array (Option Sig)
   coll : Coll
+  slots : Array Coll                                    -- collections in the command-line workspace
 
-def init : St := { sigs := Array.replicate 32 none, coll := .none }
+def init : St := { sigs := Array.replicate 32 none, coll := .none, slots := Array.replicate 8 .none }
 
 def showName : Name → String
   | .manifest => "MANIFEST"
@@ -95,6 +98,70 @@ def showRes {α : Type} (f : α → String) : Res α → String
   | .ok a => f a
   | .err e => "err " ++ e.name
 
+/-! ### command-line routes: several collections in a workspace -/
+
+/-- the manifest an index object of this collection reports, rows in its own order, real locations -/
+def collRows : Coll → Option (List Row)
+  | .zip z => zipManifest z
+  | .dir d => some (dirManifest (dirSorted d))
+  | .sigfile l => some (l.map fun s => mkRow s none)
+  | .sql db => some (sqlManifest db)
+  | _ => none
+
+/-- `load_file_as_index(path).signatures()` in the order the command line tools see -/
+def collLoad : Coll → Res (List Sig)
+  | .zip z => zipLoad z
+  | .dir d => multiIndexLoad (dirLoadSorted d)
+  | .sigfile l => multiIndexLoad l
+  | .sql db => .ok (sqlLoad db)
+  | _ => .err .valueError
+
+/-- `load_file_as_index(path).select(picklist=...).signatures()` -/
+def collSelectLoad (c : Coll) (picks : List (Nat × Nat)) : Res (List Sig) :=
+  match c with
+  | .zip z => zipSelectLoad Sm.Gen.manifestPicklistFullKey z picks
+  | c => match collLoad c with
+    | .ok l => .ok (l.filter fun s => picks.contains (sigKey Sm.Gen.manifestPicklistFullKey s))
+    | .err e => .err e
+
+def getSlots (st : St) (ks : List Nat) : List Coll := ks.map fun k => (st.slots[k]?).getD .none
+
+def isNoneColl : Coll → Bool
+  | .none => true
+  | _ => false
+
+/-- every referenced workspace slot has been made -/
+def slotsMade (st : St) (ks : List Nat) : Bool := (getSlots st ks).all fun c => !isNoneColl c
+
+/-- one create session of the saver chosen by the output name -/
+def saveTo (fmt : String) (sigs : List Sig) : Coll × String :=
+  match fmt with
+  | "zip" =>
+    match (if Sm.Gen.zipNameConsultsBuffer then zipSession none sigs else zipSessionOld none sigs) with
+    | .ok z => (.zip z, "ok refused=")
+    | .err e => (.failed, "err " ++ e.name)
+  | "dir" => (.dir (dirSessions [] [sigs]), "ok refused=")
+  | "sig" => (.sigfile sigs, "ok refused=")
+  | "siggz" => (.sigfile sigs, "ok refused=")
+  | "sqldb" =>
+    match sqlSessions Sm.Gen.sqliteRecordsSeed SqlDb.empty [sigs] with
+    | .ok (db, fls) => if fls.flatten.all id then (.sql db, "ok refused=") else (.failed, "err ValueError")
+    | .err e => (.failed, "err " ++ e.name)
+  | _ => (.failed, "bad-op")
+
+def groupRows (rows : List Row) : List ((Nat × Nat × Nat × Nat × Bool) × Nat × Nat) :=
+  rows.foldl (fun acc r =>
+    let key := (r.ksize, r.mol, r.scaled, r.num, r.abund)
+    if acc.any (·.1 = key) then acc.map fun e => if e.1 = key then (e.1, e.2.1 + 1, e.2.2 + r.nHashes) else e
+    else acc ++ [(key, 1, r.nHashes)]) []
+
+/-- `StandaloneManifestIndex.signatures()` over workspace collections of any kind -/
+def mfLoad (st : St) (rows : List Row) : Res (List Sig) :=
+  concatRes ((locations rows).map fun loc =>
+    match loc with
+    | some (.other k) => collSelectLoad ((st.slots[k]?).getD .none) (picklistOf Sm.Gen.manifestPicklistFullKey rows)
+    | _ => .err .valueError)
+
 /-- the generic loader on the current collection -/
 def stepLoadGeneric (st : St) : St × String :=
   match st.coll with
@@ -104,6 +171,10 @@ def stepLoadGeneric (st : St) : St × String :=
   | .sigfile l => (st, showRes (fun l => lst (l.map (showSig true))) (multiIndexLoad l))
   | .sql db => (st, lst ((sqlLoad db).map (showSig true)))
   | .lca db => (st, bag ((db.signatures Sm.Gen.lcaYieldsEmpty).map (showSig false)))
+  | .bag l => (st, showRes (fun l => bag (l.map (showSig true))) (multiIndexLoad l))
+  | .mf rows broken =>
+    if broken && !rows.isEmpty then (st, "err ValueError")       -- nothing to resolve in an empty manifest
+    else (st, showRes (fun l => bag (l.map (showSig true))) (mfLoad st rows))
   | _ => (st, "ok -")
 
 def step (st : St) (line : String) : St × String :=
@@ -154,6 +225,94 @@ def step (st : St) (line : String) : St × String :=
         ({ st with coll := .lca db.saveLoad }, showRefused [fl])
       | none => bad
     | _, _ => bad
+  | ["mk", slot, fmt, ss] =>
+    match nat? slot, getSessions st ss with
+    | some k, some sessions =>
+      let (c, out) : Coll × String :=
+        match fmt with
+        | "zip" =>
+          match (if Sm.Gen.zipNameConsultsBuffer then zipSessions none sessions else zipSessionsOld none sessions) with
+          | .ok (some z) => (.zip z, "ok refused=")
+          | .ok none => (.none, "ok refused=")
+          | .err e => (.failed, "err " ++ e.name)
+        | "dir" => (.dir (dirSessions [] sessions), "ok refused=")
+        | "sig" => (.sigfile (sigfileSessions sessions), "ok refused=")
+        | "siggz" => (.sigfile (sigfileSessions sessions), "ok refused=")
+        | "sqldb" =>
+          match sqlSessions Sm.Gen.sqliteRecordsSeed SqlDb.empty sessions with
+          | .ok (db, fls) => (.sql db, showRefused fls)
+          | .err e => (.failed, "err " ++ e.name)
+        | _ => (.failed, "bad-op")
+      ({ st with slots := st.slots.setIfInBounds k c }, out)
+    | _, _ => bad
+  | ["cat", outfmt, unique, _fromfile, slots] =>
+    match idxList? slots, bool? unique with
+    | some ks, some u =>
+      if !slotsMade st ks then bad else
+      match concatRes ((getSlots st ks).map collLoad) with
+      | .ok l =>
+        let (c, out) := saveTo outfmt (if u then catUnique l else l)
+        ({ st with coll := c }, out)
+      | .err e => ({ st with coll := .failed }, "err " ++ e.name)
+    | _, _ => bad
+  | ["split", slots] =>
+    match idxList? slots with
+    | some ks =>
+      if !slotsMade st ks then bad else
+      match concatRes ((getSlots st ks).map collLoad) with
+      | .ok l => ({ st with coll := .bag l }, "ok refused=")
+      | .err e => ({ st with coll := .failed }, "err " ++ e.name)
+    | none => bad
+  | ["collect", fmt, mode, slots] =>
+    match idxList? slots with
+    | some ks =>
+      if !slotsMade st ks then bad else
+      let rows := ks.flatMap fun k => relocate k ((collRows ((st.slots[k]?).getD .none)).getD [])
+      let rows := if fmt = "sql" then sqlManifestKeep rows else rows
+      ({ st with coll := .mf rows (mode = "cwdsub") }, "ok refused=")
+    | none => bad
+  | ["sigmanifest", slot, rebuild, fmt] =>
+    match nat? slot, bool? rebuild with
+    | some k, some rb =>
+      if !slotsMade st [k] then bad else
+      let rows := match (st.slots[k]?).getD .none with
+        | .zip z => if rb then zipRebuildManifest z else (zipManifest z).getD []
+        | c => (collRows c).getD []
+      let rows := if fmt = "sql" then sqlManifestKeep rows else rows
+      (st, bag (rows.map (showRow true)))
+    | _, _ => bad
+  | ["fileinfo", slot] =>
+    match nat? slot with
+    | some k =>
+      if !slotsMade st [k] then bad else
+      match collRows ((st.slots[k]?).getD .none) with
+      | some rows =>
+        let groups := (groupRows rows).map fun e =>
+          s!"g:{e.1.1}/{e.1.2.1}/{e.1.2.2.1}/{e.1.2.2.2.1}/{b2s e.1.2.2.2.2}/{e.2.1}/{e.2.2}"
+        (st, bag ([s!"n={rows.length}", s!"total={(rows.map (·.nHashes)).foldl (· + ·) 0}"] ++ groups))
+      | none => (st, "ok -")
+    | none => bad
+  | ["load", "partial", idxs] =>
+    match idxList? idxs with
+    | some is =>
+      let pickRows (rows : List Row) : List Row :=
+        if rows.isEmpty then [] else is.filterMap fun i => rows[i % rows.length]?
+      let fin (sel : List Row) (r : Res (List Sig)) : String :=
+        showRes (fun l => lst (s!"len={sel.length}" :: l.map (showSig true))) r
+      match st.coll with
+      | .zip z =>
+        let sel := pickRows ((zipManifest z).getD [])
+        (st, fin sel (standaloneLoadFs Sm.Gen.manifestPicklistFullKey [(0, z)] (relocate 0 sel)))
+      | .sigfile l =>
+        let sel := pickRows (l.map fun s => mkRow s none)
+        (st, fin sel (match multiIndexLoad l with
+          | .ok l => .ok (standaloneLoad Sm.Gen.manifestPicklistFullKey (relocate 0 sel) l)
+          | .err e => .err e))
+      | .sql db =>
+        let sel := pickRows (sqlManifest db)
+        (st, fin sel (.ok (standaloneLoad Sm.Gen.manifestPicklistFullKey (relocate 0 sel) (sqlLoad db))))
+      | _ => (st, "ok -")
+    | none => bad
   | ["members"] =>
     match st.coll with
     | .zip z => (st, bag ((names z).map showName))
@@ -172,6 +331,8 @@ def step (st : St) (line : String) : St × String :=
     | .sigfile l => (st, showRes (fun l => lst (l.map fun s => showRow true (mkRow s (some (.other 0))))) (multiIndexLoad l))
     | .sql db => (st, lst ((sqlManifest db).map (showRow true)))
     | .lca _ => (st, "ok none")
+    | .bag l => (st, showRes (fun l => bag (l.map fun s => showRow false (mkRow s none))) (multiIndexLoad l))
+    | .mf rows _ => (st, bag (rows.map (showRow true)))
     | _ => (st, "ok -")
   | ["locs"] =>
     match st.coll with
@@ -189,11 +350,11 @@ def step (st : St) (line : String) : St × String :=
       -- a `sig collect` style manifest (CSV / SQLite format): every row points at the collection
       match st.coll with
       | .zip z => match zipManifest z with
-        | some rows => (st, showRes (fun l => lst (l.map (showSig true))) (standaloneLoadFs [(0, z)] (keep (relocate 0 rows))))
+        | some rows => (st, showRes (fun l => lst (l.map (showSig true))) (standaloneLoadFs Sm.Gen.manifestPicklistFullKey [(0, z)] (keep (relocate 0 rows))))
         | none => (st, "ok -")
-      | .dir d => (st, showRes (fun l => bag ((standaloneLoad (keep (relocate 0 (dirManifest d))) l).map (showSig true))) (multiIndexLoad (dirLoad d)))
-      | .sigfile l => (st, showRes (fun l => lst ((standaloneLoad (keep (relocate 0 (l.map fun s => mkRow s none))) l).map (showSig true))) (multiIndexLoad l))
-      | .sql db => (st, lst ((standaloneLoad (keep (relocate 0 (sqlManifest db))) (sqlLoad db)).map (showSig true)))
+      | .dir d => (st, showRes (fun l => bag ((standaloneLoad Sm.Gen.manifestPicklistFullKey (keep (relocate 0 (dirManifest d))) l).map (showSig true))) (multiIndexLoad (dirLoad d)))
+      | .sigfile l => (st, showRes (fun l => lst ((standaloneLoad Sm.Gen.manifestPicklistFullKey (keep (relocate 0 (l.map fun s => mkRow s none))) l).map (showSig true))) (multiIndexLoad l))
+      | .sql db => (st, lst ((standaloneLoad Sm.Gen.manifestPicklistFullKey (keep (relocate 0 (sqlManifest db))) (sqlLoad db)).map (showSig true)))
       | .sbt z => (st, showRes (fun l => bag (l.map (showSig true))) (sbtLoad z))
       | .lca db => (st, bag ((db.signatures Sm.Gen.lcaYieldsEmpty).map (showSig false)))
       | _ => (st, "ok -")
@@ -214,6 +375,8 @@ def step (st : St) (line : String) : St × String :=
     | .sigfile l => (st, showRes (fun l => s!"ok {l.length}") (multiIndexLoad l))
     | .sql db => (st, s!"ok {db.sketches.length}")
     | .lca db => (st, s!"ok {db.len}")
+    | .bag l => (st, showRes (fun l => s!"ok {l.length}") (multiIndexLoad l))
+    | .mf rows _ => (st, s!"ok {rows.length}")
     | _ => (st, "ok -")
   | ["kind", k] =>
     match kind? k, resolveLoaders Sm.Gen.loaderPriorities with
